@@ -156,7 +156,11 @@ def check(rec, chart, tm, ticks, rcase, style):
     prev_t, prev_ts = None, None
     ok = True
     equal_seen = False
-    times = {t: us(be.timestamp_at_tick_no_optimize_return(t)) for t in ticks}
+    times = {}
+    for t in ticks:
+        if t % 5 == 0:
+            harness.distract(rec)
+        times[t] = us(be.timestamp_at_tick_no_optimize_return(t))
     # the dense ascending sweep, then sparse sub-sweeps (pairs far apart, straddling several tempo changes)
     order = list(ticks) + [None] + list(ticks[::7]) + [None] + list(ticks[3::23])
     for t in order:
